@@ -113,6 +113,11 @@ func (r *Reconciler) Reconcile(ctx context.Context, request reconcile.Request) (
 	// now apply the strategy depending on the ReplicaSet state
 	strategyResult, err := r.applyStrategy(reqLogger, daemonsetInstance, now, strategyParams)
 	newStatus := strategyResult.NewStatus
+	if newStatus == nil {
+		// the strategy returned early on an error (e.g. a malformed percentage in the rolling-update parameters):
+		// report it through the conditions of the current status instead of dereferencing a nil status.
+		newStatus = replicaSetInstance.Status.DeepCopy()
+	}
 	result := strategyResult.Result
 
 	// for the reste of the actions we will try to execute as many actions as we can so we will store possible errors in a list
